@@ -35,6 +35,9 @@ def ws_variants(key):
             out.add(key[:i] + " " + key[i:])
             out.add(key[:i + 1] + " " + key[i + 1:])
             out.add(key[:i] + " " + key[i] + "\t" + key[i + 1:])
+            # whitespace other than blank and tab (no-break space, thin space, ideographic space, form feed): still "whitespace inside the key" (seed C20_6)
+            for w in ("\u00a0", "\u2009", "\u3000", "\x0c"):
+                out.add(key[:i + 1] + w + key[i + 1:])
     if len(key) > 1 and key[1:2].isalpha():
         out.add(key[0] + " " + key[1:])          # 'A l'
     out.add(key + " ")                    # (a leading blank would make the line a continuation line of the previous value: not a key at all)
